@@ -4,6 +4,7 @@
 mod c07;
 mod c08;
 mod c11;
+mod c13;
 mod c16;
 mod client;
 mod repo;
@@ -22,6 +23,7 @@ fn run_object(v: &Value) -> Value {
     RT.with(|rt| POOL.with(|pool| match p {
         6 => client::run(rt, pool, v),
         15 => client::run_single(rt, pool, v),
+        13 => c13::key_table(pool, v),
         _ => json!([999]),
     }))
 }
@@ -41,6 +43,7 @@ fn run_case(v: &Value) -> Value {
         7 => c07::run(op, args),
         8 => c08::run(op, args),
         11 => c11::run(op, args),
+        13 => POOL.with(|pool| c13::run(pool, op, args)),
         16 => c16::run(op, args),
         _ => json!([999]),
     }
